@@ -5,15 +5,19 @@
    specification written independently of the model's control flow (targets are defined as "27-char
    strings satisfying every uuid filter"); proofs/C20_spec.v relates the two. *)
 From Coq Require Import NArith ZArith List Ascii String Bool.
-From AV Require Import lib.Str lib.SortPerm model.C20_model.
+From AV Require Import lib.Str lib.SortPerm model.C20_model model.C20_entry.
 Import ListNotations.
 Local Open Scope string_scope.
 
 Record case := {
   c_cfg : config;
+  c_login : string;                                 (* Login.LoginCluster of the cluster configuration *)
+  c_kind : kind;                                    (* which Conn.<Type>List was called *)
   c_opts : opts;
   c_exist : list string;                            (* objects that exist, each in the database of its home cluster *)
   c_logs : list (string * list (opts * answer));    (* backend id -> (request received, answer given), in order *)
+  c_upd : list (list string * bool);                (* UserBatchUpdate calls received by the local backend: (user uuids, answered without error) *)
+  o_fate : N;                                       (* 0 = the call returned; 1 = it had not returned when the watchdog (20 s) expired; 2 = it panicked *)
   o_code : N;                                       (* 0 = nil error, otherwise the HTTP status of the error *)
   o_items : list (string * item)                    (* returned items, each with the backend that produced it *)
 }.
@@ -71,11 +75,17 @@ Definition items_match (m o : list (string * item)) : bool :=
   if nodupN (map (fun x => it_time (snd x)) m) then list_eqb titem_eqb m o
   else perm_b (map titem_key m) (map titem_key o).
 
+Definition econf (c : case) : econfig := {| ec_cfg := c_cfg c; ec_login := c_login c |}.
+(* the local backend's answer to UserBatchUpdate, as recorded *)
+Definition upd_oracle (c : case) : bool := match c_upd c with (_, ok) :: _ => ok | [] => true end.
+(* the model always returns: a call that is stuck or panicked is never explained by it *)
 Definition model_b (c : case) : bool :=
-  let out := run (c_cfg c) (oracle c) (c_opts c) in
-  forallb (fun b => list_eqb opts_eqb (calls_to (c_cfg c) (c_opts c) out b) (map fst (log_of c b))) (backends c) &&
-  match errs out with
-  | [] => N.eqb (o_code c) 0 && items_match (merged (c_cfg c) out) (o_items c)
+  let eo := erun (econf c) (oracle c) (c_kind c) (c_opts c) in
+  N.eqb (o_fate c) 0 &&
+  forallb (fun b => list_eqb opts_eqb (e_calls_to (econf c) (c_opts c) eo b) (map fst (log_of c b))) (backends c) &&
+  list_eqb perm_b (e_updates (econf c) eo) (map fst (c_upd c)) &&
+  match e_errs (econf c) (upd_oracle c) eo with
+  | [] => N.eqb (o_code c) 0 && items_match (e_items (econf c) eo) (o_items c)
   | l => existsb (N.eqb (o_code c)) l
   end.
 
@@ -162,10 +172,25 @@ Definition once_b (tg : list string) (items : list (string * item)) : bool :=
 Definition complete_b (tg ex : list string) (items : list (string * item)) : bool :=
   forallb (fun u => Bool.eqb (mem u ex) (mem u (map (fun x => it_uuid (snd x)) items))) tg.
 
+(* every requested object whose prefix names a configured cluster was asked for at that cluster
+   (calls b = the list requests backend b received) *)
+Definition asked_home_b (cfg : config) (tg : list string) (calls : string -> list opts) : bool :=
+  forallb (fun u => negb (has_backend cfg (prefix u)) || existsb (fun rq => mem u (batch_of rq)) (calls (prefix u))) tg.
+
+(* the one configuration in which a list-by-uuid is not federated by splitting: user records on a cluster
+   that delegates logins to ANOTHER cluster (Login.LoginCluster set and different from the cluster's own
+   id) — that cluster is the authority for all user records and gets the whole query.  The property is
+   not applied there (the model still is). *)
+Definition login_delegated (c : case) : bool :=
+  is_user (c_kind c) && negb (c_login c =? "") && negb (c_login c =? cf_local (c_cfg c)).
+(* "... instead of looping": the call came back (with a list or an error) *)
+Definition returned (c : case) : bool := N.eqb (o_fate c) 0.
+
 (* everything the property demands except "at most once / right origin" *)
 Definition spec_base_b (c : case) : bool :=
   let cfg := c_cfg c in let o := c_opts c in let tg := spec_targets o in
-  if negb (federated o) || negb (all_well_typed o) then true
+  if negb (returned c) then false
+  else if login_delegated c || negb (federated o) || negb (all_well_typed o) then true
   else if negb (remote_involved cfg o) then
     (* nothing to federate: no remote backend is contacted *)
     forallb (fun bl => (fst bl =? cf_local cfg) || is_nil (snd bl)) (c_logs c)
@@ -181,6 +206,8 @@ Definition spec_base_b (c : case) : bool :=
     (* each backend is asked only for requested objects of its own prefix, at most once per object *)
     forallb (fun bl => forallb (fun e => subset_b (batch_of (fst e)) (todo_of (fst bl) tg)) (snd bl) &&
                        Nat.leb (List.length (snd bl)) (List.length (todo_of (fst bl) tg))) (c_logs c) &&
+    (* success => every requested object was asked for at the cluster named by its prefix *)
+    (failed || asked_home_b cfg tg (fun b => map fst (log_of c b))) &&
     (* honest backends: success, and every existing requested object is returned *)
     (negb (forallb (honest_entry (c_exist c)) (all_entries c) && subset_b (map prefix tg) (cf_local cfg :: cf_remotes cfg)) ||
      (N.eqb (o_code c) 0 && complete_b tg (c_exist c) (o_items c))).
@@ -188,7 +215,7 @@ Definition spec_base_b (c : case) : bool :=
 Definition pages_ok (c : case) : bool :=
   forallb (fun bl => pages_ok_from (spec_targets (c_opts c)) [] (snd bl)) (c_logs c).
 Definition split_mode (c : case) : bool :=
-  federated (c_opts c) && all_well_typed (c_opts c) && remote_involved (c_cfg c) (c_opts c) && negb (unsafe (c_cfg c) (c_opts c)).
+  negb (login_delegated c) && federated (c_opts c) && all_well_typed (c_opts c) && remote_involved (c_cfg c) (c_opts c) && negb (unsafe (c_cfg c) (c_opts c)).
 Definition spec_once_b (c : case) (items : list (string * item)) : bool :=
   negb (split_mode c) || negb (N.eqb (o_code c) 0) || negb (pages_ok c) || once_b (spec_targets (c_opts c)) items.
 
